@@ -159,3 +159,12 @@ PROPS['C10'] = {
     'assumptions': H_ASSUME + ['after a move the source only has to stay valid: the model adopts what it shows', 'whether filters travel with swap is left open (member swap exchanges the listener map only, std::swap moves everything): the model adopts what each object shows'],
     'bounds': {'quick': 'pool of 3, K=2 listeners per object, prior memory 0xFF, depth 5, one nested action', 'thorough': 'all three memory patterns, depth 7, plus near-wrap generation counters'},
 }
+
+PROPS['C15'] = {
+    'title': 'No listener added through a ScopedRemover outlives its remover',
+    'level': 'model_checking',
+    'parts': [{'src': 'harness/scoped.cpp', 'prefix': 'C15/', 'variants': ['g17'], 'quick_variants': ['g17O0'], 'defs': ['VERIF_SUB=%d' % i]} for i in range(3)],
+    'rule': 'BFS over histories on 2 targets and 3 remover slots (CallbackList, EventDispatcher, EventQueue): construct on target / default-construct, append/prepend/insert through a remover, direct append, remove through a remover (owned / not owned / stale handle), reset, setDispatcher/setCallbackList (same and other target), move construction, move assignment into empty and non-empty removers, swap, destroy, destroy-all; after every operation both targets are triggered and the listeners that run compared with the model; listeners a move-assignment destination was responsible for may be detached at once or later but must be gone when every remover involved is gone',
+    'assumptions': H_ASSUME + ['a moved-from remover is only destroyed, reset, re-targeted, assigned to or swapped (adding through it is not part of the alphabet)'],
+    'bounds': {'quick': '<=3 listeners, depth 5', 'thorough': 'depth 8 or fixpoint'},
+}
